@@ -37,6 +37,10 @@ pub enum Op {
 pub struct Hist {
     pub seed: u64,
     pub ops: Vec<Op>,
+    /// 0: one caller thread.  Otherwise operation i of this history is carried out by a
+    /// second thread when bit i mod 63 is set.
+    #[serde(default)]
+    pub migrate: u64,
 }
 
 #[derive(Clone, Debug, Serialize, Deserialize)]
@@ -106,6 +110,7 @@ fn gen_free_history(rng: &mut Rng) -> Hist {
     Hist {
         seed: rng.next_u64(),
         ops,
+        migrate: if rng.chance(1, 8) { rng.next_u64() | (1 << 63) } else { 0 },
     }
 }
 
@@ -174,6 +179,7 @@ fn gen_history_for(rng: &mut Rng, target: &Entry, style: u64) -> Hist {
     Hist {
         seed: rng.next_u64(),
         ops,
+        migrate: if rng.chance(1, 8) { rng.next_u64() | (1 << 63) } else { 0 },
     }
 }
 
@@ -190,7 +196,18 @@ fn run_history(h: &Hist, hi: usize, ctx: &mut Ctx) -> Result<Final, Violation> {
     let mut sum = if h.seed % 2 == 0 { Summary::default() } else { Summary::new() };
     let mut model = Entry::new();
     let mut distinct_before = 0usize;
+    // a second caller thread for this history, when asked for and when a user could
+    // move a Summary between threads too: operation number i is then carried out by
+    // it when bit i mod 63 of the mask is set (the value is set on one thread,
+    // printed or parsed on the other)
+    let helper: Option<Helper> = if h.migrate != 0 && is_send_sync!(Summary) {
+        ctx.fault("caller_thread_switch");
+        Some(Helper::new())
+    } else {
+        None
+    };
     for (oi, op) in h.ops.iter().enumerate() {
+        let step: Outcome = on_thread!(helper, h.migrate, oi, (|| -> Outcome {
         match op {
             Op::Set { var, val } => {
                 ctx.step("set", *var as u64, 0);
@@ -536,12 +553,12 @@ fn run_history(h: &Hist, hi: usize, ctx: &mut Ctx) -> Result<Final, Violation> {
             }
             distinct_before = d;
         }
+        Ok(())
+        })());
+        step?;
     }
-    Ok(Final {
-        print: sum.to_string(),
-        debug: format!("{:?}", sum),
-        model,
-    })
+    let (print, debug) = on_thread!(helper, h.migrate, 62u64, (sum.to_string(), format!("{:?}", sum)));
+    Ok(Final { print, debug, model })
 }
 
 impl Property for C07 {
